@@ -101,6 +101,8 @@ def explore_eer(ctx, chk, sc, ec, easy):
 
 
 def run(ctx, chk, tier):
+    own = chk.pid == "C06"   # as a prerequisite of another check the host's own rule text and explanation stay
+    saved = (getattr(chk, "rule_text", ""), getattr(chk, "explanation", ""))
     chk.rule_text = ("obligations per return path of eer() for 2 score directions x easy/no-easy: admissible EER value (cap), zero clause, threshold is a setter "
                      "applied to the returned EER, crossing function; plus the bisection schema of _find_root; non-trivial = path value mentions scores or ratios")
     chk.explanation = ("eer() is explored path by path with the two threshold setters and the root finder stubbed. Every returned EER value must be 0 under strict "
@@ -108,6 +110,8 @@ def run(ctx, chk, tier):
                        "zero path must return the midpoint of the two separating extremes under a strict guard (then cm() has no errors for either equal_class by C01); "
                        "the crossing function must be sign*(T_fpr(x) - T_fnr(x)) normalised so that f(0) <= 0; _find_root's loop body is checked against the bisection "
                        "schema by case analysis on the sign of f(xm).")
+    if not own:
+        chk.rule_text, chk.explanation = saved
     chk.trusted |= {"C02/C03 for the two threshold setters", "np.isclose as an equality test of the two hard fractions"}
     chk.assumptions = ["the one-sample magnitude |FPR(t) - e| <= 1/N and convergence of the bisection are not decided here"]
     for sc in ("pos", "neg"):
